@@ -77,6 +77,7 @@ SUITES = {
         "rand_store": ("rand", dict(n=120, n_ops=100, S=[1, 2], profile="store", sweep="full", far=1, kinds=G.KINDS)),
         "rand_tracked": ("rand", dict(n=120, n_ops=100, S=[1, 2], profile="store", sweep="full", far=1,
                                       kinds=[k for k in G.KINDS if k[:2] in ("f_", "d_")])),
+        "kind_churn": ("kchurn", dict(per_kind=8, n_ops=150, far=True)),
         "rand_world_tracked": ("rand", dict(n=40, n_ops=120, S=[1, 2], profile="mixed", sweep="full",
                                             kinds=[k for k in G.KINDS if k[:2] in ("f_", "d_")])),
     },
@@ -87,20 +88,21 @@ SUITES = {
         "rand_store": ("rand", dict(n=1500, n_ops=150, S=[1, 2], profile="store", sweep="full", far=2, kinds=G.KINDS)),
         "rand_tracked": ("rand", dict(n=1000, n_ops=150, S=[1, 2], profile="store", sweep="full", far=1,
                                       kinds=[k for k in G.KINDS if k[:2] in ("f_", "d_")])),
+        "kind_churn": ("kchurn", dict(per_kind=60, n_ops=300, far=True)),
         "rand_world_tracked": ("rand", dict(n=400, n_ops=200, S=[1, 2], profile="mixed", sweep="full",
                                             kinds=[k for k in G.KINDS if k[:2] in ("f_", "d_")])),
     },
 }
 
 PROP_SUITES = {
-    "C04": ["smc_plain", "smc_far", "smc_tracked", "rand_store"],
-    "C08": ["smc_plain", "smc_far", "rand_store", "rand_tracked", "world:rand_mixed"],
-    "C12": ["smc_tracked", "rand_tracked", "rand_world_tracked"],
+    "C04": ["smc_plain", "smc_far", "smc_tracked", "kind_churn", "rand_store"],
+    "C08": ["smc_plain", "smc_far", "kind_churn", "rand_store", "rand_tracked", "world:rand_mixed"],
+    "C12": ["smc_tracked", "kind_churn", "rand_tracked", "rand_world_tracked"],
     "C13": ["rand_store", "rand_tracked", "world:mc_store"],
 }
 
 TID0 = {"smc_plain": 11000000, "smc_tracked": 12000000, "smc_far": 13000000, "rand_store": 14000000,
-        "rand_tracked": 15000000, "rand_world_tracked": 16000000}
+        "rand_tracked": 15000000, "rand_world_tracked": 16000000, "kind_churn": 17000000}
 
 
 def run_suite(name, tier, seed):
@@ -136,6 +138,8 @@ def run_suite(name, tier, seed):
                     tid += 1
         res["mc"] = mc
         res["tlc_scripts"] = ntlc
+    elif kind == "kchurn":
+        scripts = G.kind_churn_scripts(seed, params["per_kind"], params["n_ops"], tid, far=params.get("far", False))
     else:
         scripts = G.random_scripts(seed, params["n"], params["n_ops"], params["S"], tid, profile=params["profile"],
                                    sweep=params["sweep"], kinds=params.get("kinds"), far=params.get("far", 0))
